@@ -768,6 +768,7 @@ pub fn kind_name(k: u8) -> &'static str {
         sched::K_POINT => "point",
         sched::K_END => "end",
         sched::K_START => "start",
+        sched::K_FINE => "fine-preempt",
         _ => "?",
     }
 }
